@@ -28,19 +28,41 @@ package actionlint
 //@ func (*ExprParser).errorf
 //@   printf_like
 
-// quoting helpers: strconv.AppendQuote escapes control characters, separators are ", "
+// quoting helpers: strconv.AppendQuote escapes control characters, separators are ", ". bnl(b): the text
+// accumulated in the builder b has no line break (one ghost bit per builder, govc/trans3.go)
+//@ func (*quotesBuilder).append
+//@   props C16
+//@   ensures old(bnl(b.inner)) ==> bnl(b.inner)
+//@ func (*quotesBuilder).appendRune
+//@   props C16
+//@   ensures old(bnl(b.inner)) ==> bnl(b.inner)
+//@ func (*quotesBuilder).build
+//@   props C16
+//@   ensures bnl(b.inner) ==> nlfree(result)
 //@ func quotes
+//@   props C16
 //@   ensures nlfree(result)
-//@   trusted strconv.AppendQuote escapes line breaks; the separator is a literal
+//@   loop "range ss":
+//@     invariant max >= 0 && n >= 0
+//@   loop "range ss" #2:
+//@     invariant bnl(b.inner)
 //@ func sortedQuotes
+//@   props C16
 //@   ensures nlfree(result)
-//@   trusted see quotes
 //@ func quotesAll
+//@   props C16
 //@   ensures nlfree(result)
-//@   trusted see quotes
+//@   loop "range sss":
+//@     invariant max >= 0
+//@   loop "range ss":
+//@     invariant max >= 0
+//@   loop "range sss" #2:
+//@     invariant bnl(b.inner)
+//@   loop "range ss" #2:
+//@     invariant bnl(b.inner)
 //@ func ordinal
+//@   props C16
 //@   ensures nlfree(result)
-//@   trusted decimal digits and a two letter suffix
 
 // rendering of values that appear under %s / %v
 //@ nlfree_string *Pos TokenKind CompareOpNodeKind
@@ -82,12 +104,88 @@ package actionlint
 // C16: the texts of errors that end up in diagnostics: parse errors of callee files are flattened to
 // one line before they are wrapped (errtext(e) is e.Error())
 //@ func (*LocalReusableWorkflowCache).FindMetadata
-//@   at_return [C16] m == m && result1 != nil ==> nlfree(errtext(result1))
+//@   ensures [C16] result1 != nil ==> nlfree(errtext(result1))
 //@ func (*LocalActionsCache).FindMetadata
 //@   ensures [C16] result2 != nil ==> nlfree(errtext(result2))
 
 // library error texts may echo text of the linted files (a YAML scalar, a cron spec): they pass through
 // singleLine before they become part of a message
 //@ func singleLine
+//@   props C16
+//@   ensures nlfree(result)
+
+// the rendering of an expression type (what %s of a type shows in a message) has no line break
+//@ func (AnyType).String
+//@   props C16
+//@   ensures nlfree(result)
+//@ func (NullType).String
+//@   props C16
+//@   ensures nlfree(result)
+//@ func (NumberType).String
+//@   props C16
+//@   ensures nlfree(result)
+//@ func (BoolType).String
+//@   props C16
+//@   ensures nlfree(result)
+//@ func (StringType).String
+//@   props C16
+//@   ensures nlfree(result)
+//@ func (*ArrayType).String
+//@   props C16
+//@   ensures nlfree(result)
+//@ func (*ObjectType).String
+//@   props C16
+//@   ensures nlfree(result)
+//@   loop "range ty.Props":
+//@     invariant forall j :: 0 <= j && j < len(ps) ==> ty.Props.has(ps[j]) && folded(ps[j])
+//@   loop "range ps":
+//@     invariant bnl(b)
+//@     invariant forall j :: 0 <= j && j < len(ps) ==> ty.Props.has(ps[j]) && folded(ps[j])
+
+// the rendering of a raw YAML value (matrix values shown with %s): strings are quoted, sequences and
+// mappings are built from the renderings of their elements
+//@ func (*RawYAMLString).String
+//@   props C16
+//@   ensures nlfree(result)
+//@ func (*RawYAMLArray).String
+//@   props C16
+//@   ensures nlfree(result)
+//@   loop "range a.Elems":
+//@     invariant bnl(b)
+//@ func (*RawYAMLObject).String
+//@   props C16
+//@   ensures nlfree(result)
+//@   loop "range o.Props":
+//@     invariant forall j :: 0 <= j && j < len(qs) ==> nlfree(qs[j])
+
+// messages of the expression lexer and parser: the places named in them are literals of the callers,
+// token kinds are rendered by TokenKind.String and quoted
+//@ func (*ExprLexer).unexpected
+//@   requires [C16] nlfree(where) && nlfree(expected)
+//@ func (*ExprParser).unexpected
+//@   requires [C16] nlfree(where)
+//@   loop "range expected":
+//@     invariant [C16] bnl(qb.inner)
+//@ func (*ExprParser).Parse
+//@   loop "for":
+//@     invariant [C16] bnl(qb.inner)
+
+// lists of renderings joined into a message
+//@ func (*RuleMatrix).checkExclude
+//@   loop "range row" #3:
+//@     invariant [C16] forall j :: 0 <= j && j < len(ss) ==> nlfree(ss[j])
+//@ func (*RuleShellName).checkShellName
+//@   loop "range getAvailableShellNames(platformKindAny)":
+//@     invariant [C16] nlfree(onPlatform)
+//@   loop "range getAvailableShellNames(platformKindAny)" #2:
+//@     invariant [C16] nlfree(onPlatform)
+
+// the description of an action shown in messages is produced by the function the caller hands over
+//@ func (*RuleAction).checkAction
+//@   callback describe: ensures nlfree(result)
+//@ func (*RuleAction).checkRepoAction$1
+//@   props C16
+//@   ensures nlfree(result)
+//@ func (*RuleAction).checkLocalAction$1
 //@   props C16
 //@   ensures nlfree(result)
